@@ -7,13 +7,8 @@ import (
 	"sort"
 	"sync"
 
-	"github.com/go-logr/logr"
-
-	ngfConfig "github.com/nginx/nginx-gateway-fabric/internal/mode/static/config"
 	"github.com/nginx/nginx-gateway-fabric/internal/mode/static/nginx/config"
 	"github.com/nginx/nginx-gateway-fabric/internal/mode/static/nginx/file"
-	"github.com/nginx/nginx-gateway-fabric/internal/mode/static/state/dataplane"
-	"github.com/nginx/nginx-gateway-fabric/internal/mode/static/state/graph"
 	"github.com/nginx/nginx-gateway-fabric/verifharness/rng"
 )
 
@@ -46,61 +41,14 @@ func shorten(b []byte) []byte {
 	return []byte{b[0], b[1], byte('a' + s%26), byte('a' + (s>>8)%26), byte('a' + (s>>16)%26), byte('a' + (s>>24)%26)}
 }
 
-// genRealSet runs the REAL config.GeneratorImpl.Generate on a small random dataplane.Configuration:
+// genRealSet runs the REAL config.GeneratorImpl.Generate on a small random dataplane.Configuration (genRealConf):
 // the paths and file types are the generator's own (key pair files of listeners that come and go,
 // certificate bundles, snippet and policy includes, mgmt files in the Plus flavour).
 func genRealSet(r *rng.R) (files []file.File) {
-	defer func() {
-		if rec := recover(); rec != nil {
-			files = []file.File{{Path: "/etc/nginx/conf.d/http.conf", Content: []byte(fmt.Sprint("P", rec))[:2]}}
-		}
-	}()
-	conf := dataplane.Configuration{
-		HTTPServers: []dataplane.VirtualServer{{IsDefault: true, Port: 80}},
-		SSLServers:  []dataplane.VirtualServer{{IsDefault: true, Port: 443}},
-		SSLKeyPairs: map[dataplane.SSLKeyPairID]dataplane.SSLKeyPair{},
-		CertBundles: map[dataplane.CertBundleID]dataplane.CertBundle{},
-		Logging:     dataplane.Logging{ErrorLevel: "info"},
-		Version:     r.Range(1, 9),
+	gen, g, conf, plus, err := runGenerate(r)
+	if err != nil {
+		return []file.File{{Path: "/etc/nginx/conf.d/http.conf", Content: []byte(fmt.Sprint("P", err))[:2]}}
 	}
-	for _, id := range []string{"ssl_keypair_ns_listener-a", "ssl_keypair_ns_listener-b", "ssl_keypair_other_tls"} {
-		if r.Chance(1, 2) {
-			conf.SSLKeyPairs[dataplane.SSLKeyPairID(id)] = dataplane.SSLKeyPair{
-				Cert: randBytes(r, 3, 9), Key: randBytes(r, 3, 9),
-			}
-			conf.SSLServers = append(conf.SSLServers, dataplane.VirtualServer{
-				Hostname: id + ".example.com", Port: 443, SSL: &dataplane.SSL{KeyPairID: dataplane.SSLKeyPairID(id)},
-			})
-		}
-	}
-	for _, id := range []string{"cert_bundle_ns_ca", "cert_bundle_ns_ca2"} {
-		if r.Chance(1, 3) {
-			conf.CertBundles[dataplane.CertBundleID(id)] = dataplane.CertBundle(randBytes(r, 3, 9))
-		}
-	}
-	if r.Chance(1, 3) {
-		conf.MainSnippets = []dataplane.Snippet{{Name: "SnippetsFilter_main_ns_sf", Contents: "worker_priority 0;"}}
-	}
-	if r.Chance(1, 3) {
-		conf.BaseHTTPConfig.Snippets = []dataplane.Snippet{{Name: "SnippetsFilter_http_ns_sf", Contents: "aio off;"}}
-	}
-	if r.Chance(1, 3) {
-		conf.TLSPassthroughServers = []dataplane.Layer4VirtualServer{{Hostname: "app.example.com", Port: 8443, UpstreamName: "su"}}
-		conf.StreamUpstreams = []dataplane.Upstream{{Name: "su"}}
-	}
-	plus := r.Chance(1, 3)
-	var usage *ngfConfig.UsageReportConfig
-	if plus {
-		usage = &ngfConfig.UsageReportConfig{Endpoint: "usage.example.com"}
-		conf.AuxiliarySecrets = map[graph.SecretFileType][]byte{graph.PlusReportJWTToken: randBytes(r, 3, 9)}
-		if r.Chance(1, 2) {
-			conf.AuxiliarySecrets[graph.PlusReportCACertificate] = randBytes(r, 3, 9)
-			conf.AuxiliarySecrets[graph.PlusReportClientSSLCertificate] = randBytes(r, 3, 9)
-			conf.AuxiliarySecrets[graph.PlusReportClientSSLKey] = randBytes(r, 3, 9)
-		}
-	}
-	g := config.NewGeneratorImpl(plus, usage, logr.Discard())
-	gen := g.Generate(conf)
 	if plus && r.Chance(1, 2) {
 		if f, err := g.GenerateDeploymentContext(conf.DeploymentContext); err == nil {
 			gen = append(gen, f)
